@@ -75,6 +75,8 @@ def fs_fault_for(op, n):
         return "eio"
     if op == "read":
         return "eio"
+    if op == "chmod":
+        return ["eperm", "erofs"][n % 2]
     return None
 
 
@@ -176,9 +178,10 @@ def run_one(ch, cfg):
                     f = fs_fault_for(op, n)
                     if f is not None:
                         life["fault"] = ("fs", op, f)
-                        if op in ("open-w", "write", "close", "flush") and \
+                        if op in ("open-w", "write", "close", "flush", "chmod") and \
                                 len(dev.newpin_acks) > acks_before:
                             life["commit_fault"] = "pin-file" if path == PIN_PATH else "other-file"
+                            life["commit_fault_op"] = op
                     return f
                 return None
             fs.fault_fn = ffn
@@ -338,7 +341,9 @@ def run_one(ch, cfg):
             elif interrupted:
                 cause = "ack-then-interrupt-before-commit"
             elif life["commit_fault"] == "pin-file":
-                cause = "commit-io-error"
+                # (the call site is part of the cause: the write of the PIN file fails at its open,
+                # write or close - an error at any other call is another finding)
+                cause = "commit-io-error:" + life["commit_fault_op"]
             elif life["commit_fault"]:
                 cause = "io-error-on-another-file"
             elif life["lost_ack"]:
